@@ -12,7 +12,11 @@ children); (5) real sockets (loopback Telnet device) and a real pty child (syste
 (harness/c11_pty.py): the real SystemTransport/PtyProcess under the real sync drivers against /bin/sh stand-ins that
 exit by themselves at a chosen point and against an ssh that cannot be exec'd, observed through /proc (children in any
 state, fds) — the facts about ptyprocess.py that Gen_Lifecycle.v carries (close() reaps in every state, spawn() owns
-what the fork created before anything can raise) are obligations of props/C11.v."""
+what the fork created before anything can raise) are obligations of props/C11.v; (7) suite `two-conn`
+(harness/c11_two.py, ORACLE-ONLY): histories over TWO real driver objects — B.commandeer(A) with either / both / none of
+them writing a channel_log file, closed through B only / A only / both in both orders (+ re-open); nested with-blocks of two
+connections with the inner one stalling / dropping / raising; Settings.NO_TERMINATE_ON_TIMEOUT — on SimDevice (sync and
+asyncio) and on real loopback sockets / a real pty child, with identity-tracked log file objects and /proc/self/fd."""
 import asyncio
 import json
 import os
@@ -23,11 +27,12 @@ import tempfile
 from . import common
 from . import c11_lib as L
 from . import c11_pty as P
+from . import c11_two as T
 from .common import coq_bool, coq_bytes, coq_list
 
 LEVEL = "proof"
 SOURCES = ["scrapli/driver/base/sync_driver.py", "scrapli/driver/base/async_driver.py",
-           "scrapli/channel/base_channel.py", "scrapli/decorators.py",
+           "scrapli/channel/base_channel.py", "scrapli/decorators.py", "scrapli/settings.py",
            "scrapli/transport/plugins/telnet/transport.py", "scrapli/transport/plugins/asynctelnet/transport.py",
            "scrapli/transport/plugins/system/transport.py", "scrapli/transport/plugins/system/ptyprocess.py",
            "scrapli/transport/base/base_socket.py"] + \
@@ -122,6 +127,15 @@ class Scenario:
             self.r.loop.run_until_complete(go())
 
     def run(self):
+        from scrapli.settings import Settings
+        saved = Settings.NO_TERMINATE_ON_TIMEOUT
+        Settings.NO_TERMINATE_ON_TIMEOUT = bool(self.sc.get("no_terminate"))
+        try:
+            return self._run()
+        finally:
+            Settings.NO_TERMINATE_ON_TIMEOUT = saved
+
+    def _run(self):
         obs = []
         t, d = self.t, self.d
         fd0 = L.fd_snapshot()
@@ -169,26 +183,27 @@ class Scenario:
         return obs
 
 
-def _dev_step(dead, fired, phase):
+def _dev_step(dead, fired, phase, nt=False):
+    """nt: Settings.NO_TERMINATE_ON_TIMEOUT — the timeout raises and leaves the transport open"""
     if dead:
         return "SDrop T", True
     if fired and fired[0] == phase:
         if fired[1] in ("drop", "wdrop"):
             return "SDrop T", True
-        return "SStall T", False
+        return ("SStallOpen T" if nt else "SStall T"), False
     return "SOk T", False
 
 
-def _hook_steps(spec, has_hook, phase, dead, fired):
+def _hook_steps(spec, has_hook, phase, dead, fired, nt=False):
     """model steps of a hook; returns (coq term for option (list step), dead')"""
     if not has_hook:
         return "None", dead
     if spec in ("default", None):
-        s, dead = _dev_step(dead, fired, phase)
+        s, dead = _dev_step(dead, fired, phase, nt)
         return "(Some [%s])" % s, dead
     steps = []
     if spec.get("interact"):
-        s, dead = _dev_step(dead, fired, phase)
+        s, dead = _dev_step(dead, fired, phase, nt)
         steps.append(s)
     if spec.get("fail"):
         steps.append("SFail %s" % exc_term(spec["fail"]))
@@ -199,6 +214,7 @@ def model_ops(sc, obs, has_open_hook, has_close_hook):
     """the history as model ops; the device outcomes (which interaction failed how) come from what the
     scripted transport did, everything else from the scenario"""
     terms = []
+    nt = bool(sc.get("no_terminate"))
     logcfg = coq_bool(sc.get("log") in ("file", "bad"))
     copen = "(Raised (EOther %d))" % USER_EXC_NAMES.index("FileNotFoundError") if sc.get("log") == "bad" else "Normal"
     for op, o in zip(sc["ops"], obs):
@@ -206,22 +222,22 @@ def model_ops(sc, obs, has_open_hook, has_close_hook):
         if op["op"] in ("open", "with"):
             dead = False
             topen = res_term(op["open_fail"]) if op.get("open_fail") else "Normal"
-            h_open, dead = _hook_steps(sc.get("on_open", "default"), has_open_hook, "on_open", dead, fired)
+            h_open, dead = _hook_steps(sc.get("on_open", "default"), has_open_hook, "on_open", dead, fired, nt)
             body = []
             if op["op"] == "with":
                 if op.get("body_ops", 1) > 0:
-                    s, dead = _dev_step(dead, fired, "body")
+                    s, dead = _dev_step(dead, fired, "body", nt)
                     body.append(s)
                 if op.get("body_exc"):
                     body.append("SFail %s" % exc_term(op["body_exc"]))
-            h_close, dead = _hook_steps(sc.get("on_close", "default"), has_close_hook, "on_close", dead, fired)
+            h_close, dead = _hook_steps(sc.get("on_close", "default"), has_close_hook, "on_close", dead, fired, nt)
             env = "(mkE %s %s %s [] %s %s)" % (logcfg, topen, copen, h_open, h_close)
             terms.append("OOpen %s" % env if op["op"] == "open" else "OWith %s %s" % (env, coq_list(body)))
         elif op["op"] == "operate":
-            s, _ = _dev_step(o["dead_before"], fired, "operate")
+            s, _ = _dev_step(o["dead_before"], fired, "operate", nt)
             terms.append("OOperate [%s]" % s)
         elif op["op"] == "close":
-            h_close, _ = _hook_steps(sc.get("on_close", "default"), has_close_hook, "on_close", o["dead_before"], fired)
+            h_close, _ = _hook_steps(sc.get("on_close", "default"), has_close_hook, "on_close", o["dead_before"], fired, nt)
             terms.append("OClose (mkE %s Normal Normal [] None %s)" % (logcfg, h_close))
     return terms
 
@@ -377,6 +393,31 @@ def gen_history(rng, malformed=False):
             op.pop("fault", None)
         sc["ops"].append(op)
     return sc
+
+
+def gen_no_terminate(seed, thorough):
+    """Settings.NO_TERMINATE_ON_TIMEOUT histories (model step SStallOpen): a stall raises ScrapliTimeout and leaves the
+    transport open — only close() / __exit__ release it.  Own generator stream: the other suites' streams do not move."""
+    import random
+    rng = random.Random("c11-no-terminate-%s" % seed)
+    out = []
+    for kind in L.KINDS:
+        for stack in ("sync", "async"):
+            log = rng.choice(["file", None])
+            pts = [p for p in fault_points(kind, "body") if p[0] == "stall"]
+            for fk, at in (pts if thorough else rng.sample(pts, 1)):
+                out.append({"kind": kind, "stack": stack, "log": log, "no_terminate": True, "ops": [
+                    {"op": "with", "fault": {"phase": "body", "kind": "stall", "at": at}, "body_ops": 1}, {"op": "with", "body_ops": 1}]})
+            pts = [p for p in fault_points(kind, "operate") if p[0] == "stall"]
+            for fk, at in (pts if thorough else rng.sample(pts, 1)):
+                out.append({"kind": kind, "stack": stack, "log": log, "no_terminate": True, "ops": [
+                    {"op": "open"}, {"op": "operate", "fault": {"phase": "operate", "kind": "stall", "at": at}}, {"op": "close"},
+                    {"op": "close"}, {"op": "open"}, {"op": "close"}]})
+    for _ in range(300 if thorough else 40):
+        sc = gen_history(rng)
+        sc["no_terminate"] = True
+        out.append(sc)
+    return out
 
 
 HEADER_LC = """From Verif Require Import Bytes Telnet Lifecycle.
@@ -866,6 +907,77 @@ def _pty_suite(rep, rng, thorough, tmpdir, corpus):
     rep.coverage["pty_child"] = pdist
 
 
+def _two_suite(rep, rng, thorough, tmpdir, corpus):
+    """two connections: commandeer, nested with-blocks, NO_TERMINATE_ON_TIMEOUT (oracle-only, harness/c11_two.py)"""
+    import time
+    t0 = time.time()
+    dist = {"histories": 0, "by_kind": {}, "stacks": {}, "ops": {}, "results": {}, "faults_fired": {}, "logs_A_B": {},
+            "close_orders": {}, "release_points": 0, "release_points_after_raise": 0,
+            "log_handles_seen": 0, "oracle_failures": 0}
+    scs = [c["scenario"] for c in corpus if c.get("suite") == "two-conn"]
+    scs += T.generate(rng, thorough)
+    seen = set()
+    for n, sc in enumerate(scs):
+        sc = dict(sc, n=n)
+        try:
+            obs = T.TwoConn(sc, tmpdir).run()
+        except L.Starved:
+            rep.broken.append("two-conn harness: scenario starved")
+            rep.notes.append("starved: %r" % (sc,))
+            continue
+        pub = {k: v for k, v in sc.items() if k != "n"}
+        kind = T.classify(sc)
+        dist["histories"] += 1
+        dist["by_kind"][kind] = dist["by_kind"].get(kind, 0) + 1
+        dist["stacks"][sc["stack"]] = dist["stacks"].get(sc["stack"], 0) + 1
+        if kind == "commandeer":
+            k = "%s/%s" % (sc["conns"]["A"].get("log"), sc["conns"]["B"].get("log"))
+            dist["logs_A_B"][k] = dist["logs_A_B"].get(k, 0) + 1
+            k = ">".join(op["c"] for op in sc["ops"] if op["op"] == "close")
+            dist["close_orders"][k] = dist["close_orders"].get(k, 0) + 1
+        for op, o in zip(sc["ops"], obs):
+            dist["ops"][op["op"]] = dist["ops"].get(op["op"], 0) + 1
+            k = "%s:%s" % (op["op"], o["res"])
+            dist["results"][k] = dist["results"].get(k, 0) + 1
+            if o["fired"]:
+                k = "%s/%s" % tuple(o["fired"])
+                dist["faults_fired"][k] = dist["faults_fired"].get(k, 0) + 1
+            if op["op"] in ("close", "with", "nested"):
+                dist["release_points"] += 1
+                dist["release_points_after_raise"] += o["res"] != "ok"
+        dist["log_handles_seen"] += obs[-1]["handles_seen"] if obs else 0
+        if dist["histories"] in (1, 40):
+            rep.sample({"two_conn_history": pub, "observed": [{"res": o["res"], "fired": o["fired"], "conn": o["conn"],
+                                                               "handles_open": o["handles_open"], "log_fds": o["log_fds"]} for o in obs]})
+        rep.case(("two", json.dumps(pub, sort_keys=True)), nontrivial=any(o["fired"] or o["res"] != "ok" for o in obs) or kind == "commandeer")
+        for (i, klass, what) in T.oracle(sc, obs):
+            dist["oracle_failures"] += 1
+            key = (klass, sc["ops"][i]["op"], sc["stack"], kind)
+            if key in seen or len(seen) >= 6:
+                continue
+            seen.add(key)
+            rep.violation("two connections (%s), %s: %s" % (kind, sc["stack"], what),
+                          {"suite": "two-conn", "scenario": pub, "failing_op": i, "observed": obs,
+                           "rerun": "./check C11 --replay <this file>"}, signature=T.signature(sc, i, klass))
+    # real sockets / a real pty child under two connections
+    rdist = {"scenarios": 0, "results": {}}
+    standin = STANDIN % {"verif": common.VERIF, "repo": common.REPO}
+    for sc in T.real_scenarios(rng, thorough):
+        obs = T.run_real(sc, tmpdir, standin)
+        rdist["scenarios"] += 1
+        k = "%s/%s:%s" % (sc["shape"], sc["transport"], obs["res"])
+        rdist["results"][k] = rdist["results"].get(k, 0) + 1
+        rep.case(("two-real", json.dumps(sc, sort_keys=True)), nontrivial=True)
+        badr = T.real_oracle(sc, obs)
+        if badr:
+            rep.violation("two connections on real %s transport, %s: %s" % (sc["transport"], sc["shape"], "; ".join(badr)),
+                          {"suite": "two-conn-real", "scenario": sc, "observed": obs, "rerun": "./check C11 --replay <this file>"},
+                          signature="c11-two-real-%s" % sc["shape"])
+    dist["real"] = rdist
+    dist["wall_s"] = round(time.time() - t0, 2)
+    rep.coverage["two_connections"] = dist
+
+
 # ------------------------------------------------------------------------------------------------
 def run(rep):
     from gen import gen_lifecycle, gen_telnet
@@ -915,8 +1027,10 @@ def _explore(rep, rng, thorough, tmpdir, info, gen_ok):
     n_rand = 1500 if thorough else 220
     scenarios += [gen_history(rng) for _ in range(n_rand)]
     scenarios += [gen_history(rng, malformed=True) for _ in range(n_rand // 4)]
+    scenarios += gen_no_terminate(rep.seed, thorough)
     dist = {"scenarios": 0, "ops": {}, "kinds": {}, "stacks": {}, "results": {}, "faults_fired": {}, "log": {},
-            "history_len": {}, "release_points": 0, "release_points_after_raise": 0}
+            "history_len": {}, "release_points": 0, "release_points_after_raise": 0, "no_terminate": 0,
+            "no_terminate_timeouts_left_transport_open": 0}
     terms, cases, viol = [], [], []
     for n, sc in enumerate(scenarios):
         sc = dict(sc)
@@ -928,6 +1042,9 @@ def _explore(rep, rng, thorough, tmpdir, info, gen_ok):
             rep.notes.append("starved: %r" % (sc,))
             continue
         dist["scenarios"] += 1
+        dist["no_terminate"] += bool(sc.get("no_terminate"))
+        dist["no_terminate_timeouts_left_transport_open"] += sum(
+            1 for o in obs if sc.get("no_terminate") and o["res"] == "ScrapliTimeout" and o["t_open"])
         dist["kinds"][sc["kind"]] = dist["kinds"].get(sc["kind"], 0) + 1
         dist["stacks"][sc["stack"]] = dist["stacks"].get(sc["stack"], 0) + 1
         dist["log"][str(sc.get("log"))] = dist["log"].get(str(sc.get("log")), 0) + 1
@@ -1051,6 +1168,9 @@ def _explore(rep, rng, thorough, tmpdir, info, gen_ok):
     # ---- real pty children that go away by themselves / an ssh that cannot be exec'd ----
     _pty_suite(rep, rng, thorough, tmpdir, corpus)
 
+    # ---- two connections: commandeer / nested with-blocks / NO_TERMINATE_ON_TIMEOUT ----
+    _two_suite(rep, rng, thorough, tmpdir, corpus)
+
     # ---- a broken obligation / correspondence without a failing input so far: search harder ----
     if rep.broken and not rep.violations:
         found = 0
@@ -1074,13 +1194,21 @@ def _explore(rep, rng, thorough, tmpdir, info, gen_ok):
     rep.rule = ("lifecycle: histories of open / operate / close / with over real drivers (5 platforms + generic + network, sync and asyncio) "
                 "and SimDevice; enumerated = the device dropping, stalling or failing a write at every read/write of every phase "
                 "(on_open, operate, with-body, on_close); random = mostly-valid histories (len 2-7, hooks default/user/failing, log file/none/unopenable, "
-                "open failures) + a malformed stream (close before open, operate on closed, open on open); distinct = scenario JSON; "
+                "open failures) + a malformed stream (close before open, operate on closed, open on open) + NO_TERMINATE_ON_TIMEOUT histories (a stall raises and leaves the "
+                "transport open, model step SStallOpen: per kind x stack a with-block stalling in the body and open/operate-stall/close/close/open/close, + 40 (300) random); distinct = scenario JSON; "
                 "non-trivial = some fault fired or some op raised.  telnet-reopen: 2-3 sessions on one transport object, early sessions leave it "
                 "dirty (10 commands, EOF, command cut short); real-resources: loopback TCP device / pty child, device ok / silent / dying; "
                 "pty-child: histories of with / open / operate / close / close / re-open over the real system transport, the /bin/sh stand-in exiting "
                 "at a drawn point (start, on_open line 1-3, on the body command, 1-2 lines into on_close; exit 0 / 255 / SIGKILL) or the ssh exec failing "
                 "(ENOEXEC, missing interpreter, E2BIG, not executable; open_cmd / PATH): quick = one platform per kind + 2 random histories, thorough = "
-                "all platforms x phases x shapes + 40 random; distinct = history JSON; non-trivial = some op raised")
+                "all platforms x phases x shapes + 40 random; distinct = history JSON; non-trivial = some op raised.  "
+                "two-conn: histories over two driver objects A, B — commandeer (open A with/without channel_log file, B constructed with/without its own, "
+                "B.commandeer(A) with/without on_open and with the device dropping/stalling inside it, operate through B and/or A, close B | A | B,A | A,B, repeated closes, "
+                "re-open) every (stack x logs x order) combination on every run + random; nested with-blocks (outer A, inner B: inner stall / drop / body raising "
+                "ScrapliTimeout or another class / fault in the outer body after the inner block); NO_TERMINATE_ON_TIMEOUT (with-block stalling in body / on_open, "
+                "open-operate-close stalling in operate / on_close, nested): quick = 44 fixed + 120 random, thorough = 44 + 600; real = telnet / asynctelnet loopback "
+                "and a pty child (commandeer: 3 of 36 quick, all thorough; nested / no_terminate with a 0.4 s operation timeout: 1 of 4 quick, all thorough); "
+                "distinct = history JSON; non-trivial = commandeer history, or some fault fired / some op raised")
 
 
 # ------------------------------------------------------------------------------------------------
@@ -1133,6 +1261,25 @@ def replay(path):
                 print("op %d: %s" % (i, what))
             print("property FAILS on this input" if bad else "property holds on this input")
             return 1 if bad else 0
+        if r.get("suite") == "two-conn":
+            sc = r["scenario"]
+            obs = T.TwoConn(dict(sc, n=0), tmpdir).run()
+            for op, o in zip(sc["ops"], obs):
+                print("%-66s -> %-26s fired=%s shared_transport=%s" % (json.dumps(op)[:66], o["res"], o["fired"], o["shared"]))
+                print("      %s  log file objects open=%d/%d log fds=%s new fds=%s" % (
+                    "  ".join("%s: transport_open=%s alive=%s log_open=%s" % (n, c["t_open"], c["isalive"], c["log_open"])
+                              for n, c in sorted(o["conn"].items())), o["handles_open"], o["handles_seen"], o["log_fds"], o["new_fds"]))
+            bad = T.oracle(sc, obs)
+            for (i, klass, what) in bad:
+                print("op %d: %s" % (i, what))
+            print("property FAILS on this input" if bad else "property holds on this input")
+            return 1 if bad else 0
+        if r.get("suite") == "two-conn-real":
+            obs = T.run_real(r["scenario"], tmpdir, STANDIN % {"verif": common.VERIF, "repo": common.REPO})
+            print(obs)
+            bad = T.real_oracle(r["scenario"], obs)
+            print("property FAILS on this input: %s" % bad if bad else "property holds on this input")
+            return 1 if bad else 0
         print("nothing to replay (no concrete input): %s" % r.get("what"))
         return 1
     finally:
@@ -1143,7 +1290,8 @@ MANIFEST = {
     "text": "Coq theorems (props/C11.v), for the programs that gen/gen_lifecycle.py translates from the CURRENT Driver/AsyncDriver source "
             "(open, close, __enter__/__aenter__, __exit__/__aexit__) and for EVERY history of open / operate / close / re-open / with-blocks, "
             "every on_open/on_close hook (absent, succeeding, raising any exception at any point, the default platform hooks) and every device "
-            "outcome of every interaction (answers, drops -> ScrapliConnectionError, stalls -> timeout closes the transport and raises ScrapliTimeout): "
+            "outcome of every interaction (answers, drops -> ScrapliConnectionError, stalls -> timeout closes the transport and raises ScrapliTimeout, or with "
+            "NO_TERMINATE_ON_TIMEOUT raises and leaves the transport open): "
             "after close() returns OR raises and after every with-block exit (failed open, failed on_open, body exception, failed on_close) the "
             "transport handle and the channel-log handle are released (close_releases, with_releases, history_releases); a further close() changes "
             "nothing and with a device-talking hook raises ScrapliConnectionNotOpened, otherwise returns (close_idempotent); open() after close() "
@@ -1155,12 +1303,14 @@ MANIFEST = {
             "states x 4 environments); the parent part of PtyProcess.spawn() wraps pid/fd in a PtyProcess before any statement that can raise, so a failed "
             "exec of the ssh binary leaves them owned and close() releases them (C11_pty_open_failure_released).  The full statement for the pty child is "
             "refuted (C11_pty_close_full_refuted: EOF read while the child still runs and ignores SIGHUP -> blocking waitpid).  Release of OS resources (fds, pty child, "
-            "sockets, threads) is otherwise OBSERVED, not proved: partial.",
+            "sockets, threads) is otherwise OBSERVED, not proved: partial.  Two connections (commandeer: B takes over A's transport and A's log handle; nested with-blocks; "
+            "Settings.NO_TERMINATE_ON_TIMEOUT across them) are NOT in the theorems: decided by an oracle on the real code only (suite two-conn).",
     "note": "Proved of the model: ordering logic of the four driver methods (statement language: sequence / try-finally / try-except, Python "
             "semantics), decided for the generated programs by a verified abstract interpreter (lifecycle_ok, soundness proved). Section-free, axiom-free. "
             "Model assumptions (each confronted by the correspondence runs, not proved): transport.close()/channel.close() do not raise and release "
             "every handle the object owns; a hook/step never opens a transport; a read/write on a closed transport raises ScrapliConnectionNotOpened; "
-            "a timeout closes the transport (Settings.NO_TERMINATE_ON_TIMEOUT default); only Exception subclasses (no KeyboardInterrupt/BaseException); "
+            "a timeout either closes the transport and raises ScrapliTimeout (step SStall, the default) or, with Settings.NO_TERMINATE_ON_TIMEOUT, raises and leaves it open "
+            "(step SStallOpen; both are device outcomes the theorems quantify over, both exercised by the lifecycle correspondence: gen_no_terminate); only Exception subclasses (no KeyboardInterrupt/BaseException); "
             "open() on an already open connection (handle replacement) is outside the property's quantifier and not tracked. "
             "Pty child model: only PtyProcess.close() and the parent part of spawn() are translated (ast, fail-closed; gen also requires __del__ -> self.close() "
             "and SystemTransport.close -> session.close()); isalive()/terminate()/waitpid, 'closing the master sends SIGHUP' and 'os.close/os.read on the "
@@ -1177,7 +1327,17 @@ MANIFEST = {
             "/proc/self/fd, threads, after gc.collect() (8 histories quick, ~100 thorough). "
             "Observed only (partial): /proc/self/fd, child pids, threading.enumerate, handle attributes for SimDevice runs (every run) and for real "
             "sockets / a real pty child (6 scenarios quick, 24 thorough); in-channel authentication outcomes are modelled but not exercised (auth_bypass); "
-            "paramiko / asyncssh / ssh2 transports are not exercised (no server in the sandbox run).",
+            "paramiko / asyncssh / ssh2 transports are not exercised (no server in the sandbox run). "
+            "Suite two-conn is ORACLE-ONLY (the model has ONE connection; commandeer() is not translated by gen_lifecycle; single-connection NO_TERMINATE_ON_TIMEOUT histories are "
+            "ALSO in the model-compared lifecycle suite): "
+            "what the unchanged commandeer() does was read from the source and is what the oracle's rule R2 relies on — B takes A's transport object; when A holds a log handle "
+            "B's channel adopts that same handle (B's own channel_log is not opened, open() is never called on B); the docstring promises that closing B closes the original "
+            "connection too.  Oracle (on observations only): R1 a connection that is closed / whose with-block is left holds nothing (transport flag, isalive, channel.transport, "
+            "its log handle); R2 closing the commandeering connection leaves the commandeered one released as well; R3 once no connection is in use any more (all closed, or "
+            "closed through the commandeering one) no file object that EVER was a channel log is open (identity-tracked at every op, also handles no connection refers to any "
+            "more), no fd points at a log file, no new fd / thread, (real: no socket, child, transport handle; log handles / fds also right after close B); a history that closes only the commandeered A leaves B in use: "
+            "only A is judged; R4 open() of a released connection on a healthy device succeeds.  Which exception leaves nested blocks is not judged.  "
+            "Known finding c11-reopen-adopted-log (replayed every run, the generator keeps away): re-open of a commandeering connection without own channel_log after close().",
     "technique": "Coq: verified abstract interpretation of generated method bodies + case analysis over outcomes; vm_compute correspondence against "
                  "real drivers with fault injection at every read/write; exhaustive evaluation of the translated PtyProcess.close() over its finite "
                  "state space; /proc observers (children incl. zombies, fds) on real pty children that exit by themselves or cannot be exec'd",
